@@ -13,26 +13,26 @@ PYSEM = ('Python semantics assumed by the VC encoding (E1-E6 in DESIGN.md 2.2): 
 
 B = 'bounded stand-in: the contracts of the functions the property depends on, evaluated at run time on the real code over the scope stated in coverage.rule; labelled bounded, never counted as proved. '
 P = {
- 'C01': dict(level='exploration', ref='3/C01', tech='contract-based deductive verification (pyvc: AST->VC generator over the real source + z3) of CTL.modelcheck (object formula, F=None), _checkStateFormula, _checkAtomicProposition, _checkNot, _checkOr, _checkEX, _checkEU against result == sat(K,f) (documented semantics in fixpoint form as axioms); _checkEG and compute_SCCs bounded only; decisive end-to-end part: run-time contract against an independent reference semantics',
-   text='Deductive part: ~630 obligations (functional, memo-table invariant, raises) of 7 functions of CTL/model_checking.py discharged for all structures and formulas, incl. E(f U g) as least fixpoint via the contracts of get_subgraph/get_reversed_graph/add_edge/add_node/get_reachable_set_from. Not a proof of the property: _checkEG is only under an assumed contract, the semantics axioms and the rewriting contract of CTL A/E are trusted/bounded. The bounded stand-in (every structure <=2 states x formulas to depth 2, sampled/all 3-state, random <=6 states; vs vf/spec/sem.py) decides.', note='reference semantics vf/spec/sem.py trusted (audited against lasso enumeration); ' + PYSEM),
- 'C02': dict(level='exploration', ref='3/C02', tech='run-time contract of LTL.modelcheck against the reference semantics with lasso certification (bounded); tableau internals not within deductive reach',
-   text=B + 'LTL.modelcheck on small structures x path formulas with <=3 temporal operators; every excluded verdict certified by a concrete lasso.', note='_build_atoms/_Tableu and the tableau theorem are not proved; reference semantics trusted'),
- 'C03': dict(level='exploration', ref='3/C03', tech='run-time contract of CTLS.modelcheck against the reference semantics (bounded)',
-   text=B + 'CTLS.modelcheck on small structures x CTL* state formulas (arbitrary path formulas under A/E, quantifier nesting <=2).', note='LTL leg bounded only (C02); reference semantics trusted'),
+ 'C01': dict(level='exploration', ref='3/C01', tech='contract-based deductive verification (pyvc: AST->VC generator over the real source + z3) of CTL.modelcheck (object formula, F=None), _checkStateFormula, _checkAtomicProposition, _checkNot, _checkOr, _checkEX, _checkEU, _checkEG against result == sat(K,f) (documented semantics in fixpoint form as axioms); compute_SCCs under an ASSUMED contract (= the statement of C12); decisive end-to-end part: run-time contract against an independent reference semantics (bounded)',
+   text='Deductive part: ~740 obligations (functional, memo-table invariant, raises) of the 8 functions of CTL/model_checking.py discharged for all structures and formulas: E(f U g) as least fixpoint via the contracts of get_subgraph/get_reversed_graph/add_edge/add_node/get_reachable_set_from; E G f via the components of the reversed f-subgraph (greatest-fixpoint principle for soundness; finite-structure cycle lemma, closure axioms and induction for completeness). Not a proof of the property: compute_SCCs is assumed (C12 bounded), the semantics axioms, the two extremality schemas and the cycle lemma are trusted, the rewriting contract is proved separately in the path semantics (C05), the text/parser and fairness legs are outside. The bounded stand-in (every structure <=2 states x formulas to depth 2, sampled/all 3-state, random <=6 states; vs vf/spec/sem.py) decides.', note='reference semantics vf/spec/sem.py trusted (audited against lasso enumeration); see evidence trusted_base for the assumed lemmas; Python semantics E1-E6 (DESIGN.md 2.2)'),
+ 'C02': dict(level='exploration', ref='3/C02', tech='contract-based deductive verification (pyvc + z3) of the wrapper LTL.modelcheck against an ASSUMED contract of _checkE_path_formula; run-time contract of LTL.modelcheck against the reference semantics with lasso certification decides (bounded); tableau internals not within deductive reach',
+   text='Deductive part: the wrapper returns the states all of whose paths satisfy g, given the assumed contract of the tableau search and the proved contracts of LNot and of the rewriting (its frame/safety obligations are counted under C07/C19). Bounded stand-in (decides): LTL.modelcheck on small structures x path formulas with <=3 temporal operators; every excluded verdict certified by a concrete lasso.', note='_build_atoms/_Tableu and the tableau theorem are not proved; reference semantics trusted'),
+ 'C03': dict(level='exploration', ref='3/C03', tech='contract-based deductive verification (pyvc + z3) of the fresh-label helper and - for frame/safety only - of the three functions of the reduction; what the reduction computes: run-time contract of CTLS.modelcheck against the reference semantics (bounded)',
+   text='Deductive part: the label returned by _get_a_new_atomic_proposition_for is not a label of the structure; _remove_state_subformulas/_checkQuantifiedFormula keep the states, transitions and label-set objects of the structure passed in and rebuild formulas that keep the arity invariant (their frame and safety obligations are counted under C07/C19). Bounded stand-in (decides): CTLS.modelcheck on small structures x CTL* state formulas (arbitrary path formulas under A/E, quantifier nesting <=2).', note='LTL leg bounded only (C02); reference semantics trusted'),
  'C04': dict(level='exploration', ref='3/C04', tech='relational run-time contracts over pairs of calls (agreement of entry points, Boolean/duality/expansion laws); no oracle',
    text=B + 'agreement of CTL/LTL/CTL* entry points and text/object, and 16 semantic laws, on small and random structures.', note='needs no reference implementation; bounded scope'),
- 'C05': dict(level='exploration', ref='3/C05', tech='contract-based deductive verification (pyvc + z3) of LNot and the 12 CTL* get_equivalent_restricted_formula bodies against the documented path semantics (axioms over abstract evaluation points) and the restricted alphabet; CTL A/E bodies and end-to-end claim: run-time contract with equivalence decided by the reference semantics (bounded)',
-   text='Deductive part: 100 obligations (equivalence for every evaluation point, restricted alphabet, loop invariants of the list-building loops) discharged for all formulas; the CTL A/E rewrites (AU, ER) are bounded only. Bounded stand-in: formulas to depth 2-3; LTL equivalence over 2 atoms decided exactly on the universal 4-state structure; quantified formulas on all <=2-state structures + samples.', note='reference semantics trusted; formulas to depth 2-3'),
+ 'C05': dict(level='exploration', ref='3/C05', tech='contract-based deductive verification (pyvc + z3) of LNot, the 12 CTL* get_equivalent_restricted_formula bodies, the CTL-specific bodies CTL.A / CTL.E and the shortcuts EX/EG/EU against the documented path semantics (axioms over abstract evaluation points) and the documented restricted syntaxes of CTL*/LTL and CTL; end-to-end claim: run-time contract with equivalence decided by the reference semantics (bounded)',
+   text='Deductive part: ~150 obligations (equivalence at every evaluation point, restricted alphabet, no double negation, loop invariants of the list-building loops) discharged for all formulas; A(f U g) and E(f R g) use the least-position principle (well-ordering, trusted) through one cut lemma each; CTL receivers are assumed to satisfy the documented CTL grammar. LTL receivers (module lookup Lang.E, KF-C05-1) are not under proof. Bounded stand-in: formulas to depth 2-3; LTL equivalence over 2 atoms decided exactly on the universal 4-state structure; quantified formulas on all <=2-state structures + samples.', note='reference semantics trusted; formulas to depth 2-3'),
  'C06': dict(level='exploration', ref='3/C06', tech='metamorphic run-time contracts (renaming, reordering, atom renaming, unreachable states) + fresh interpreters per PYTHONHASHSEED',
    text=B + '8 presentations per (K,f) and 4 (quick) / 32 (thorough) hash seeds.', note='finite sample of seeds and bijections'),
- 'C07': dict(level='exploration', ref='3/C07', tech='frame obligations (pyvc + z3: every heap write goes to an object allocated during the call or named by the contract) on the CTL labelling functions; deep-snapshot run-time contracts and repeatability over random interleavings decide the rest (bounded)',
-   text=B + 'snapshots of structure (incl. object identity of label/successor sets), formula tree, F argument and module/class state after every call; interleaved repetitions return equal results.', note='bounded histories'),
+ 'C07': dict(level='exploration', ref='3/C07', tech='frame obligations (pyvc + z3: every heap write goes to an object allocated during the call or named by the contract; nothing older than the call differs at exit, also on the TypeError exit) on the CTL labelling functions and CTL.modelcheck (with and without F), the LTL.modelcheck wrapper, the CTL* reduction (CTLS.modelcheck, _remove_state_subformulas, _checkQuantifiedFormula) and Kripke.label_fair_states/get_fair_states; deep-snapshot run-time contracts and repeatability over random interleavings decide the rest (bounded)',
+   text='Deductive part: ~170 frame obligations of 16 functions discharged for all structures, object formulas and fairness constraints (writes reach only objects allocated during the call, or the CONTENTS of label sets of the clone). Assumed: compute_SCCs, _checkE_path_formula, CTL.modelcheck on arbitrary formula objects (cast leg), formula operations touch no structure. Bounded stand-in: snapshots of structure (incl. object identity of label/successor sets), formula tree, F argument and module/class state after every call; interleaved repetitions return equal results; text vs object.', note='bounded histories'),
  'C08': dict(level='exploration', ref='3/C08', tech='run-time contracts of constructors, cast_to and modelcheck guards against the documented grammars (wf_* written from logics.rst)',
    text=B + 'operator trees over the union alphabet exhaustive to depth 2, sampled depth 3, x 4 languages x {construct, mixed-language operands, cast_to, modelcheck}; non-formula arguments.', note='documented grammars transcribed in vf/spec/trees.py'),
  'C09': dict(level='exploration', ref='3/C09', tech='print->parse round trip with structural comparison; pairwise distinct printed forms (bounded; the parser is a Lark grammar string)',
    text=B + 'formulas of PL, LTL, CTL*, CTL (in CTL* notation) to depth 2-3, random to depth 5.', note='lark trusted'),
- 'C10': dict(level='exploration', ref='3/C10', tech='run-time contract of Parser.__call__ + comparison with an independent parser of the documented grammar (bounded)',
-   text=B + 'valid strings cross-fed to all four parsers, token-level mutations, random token sequences, junk characters.', note='lark trusted; documented grammar = fixed transcription vf/spec/docgrammar.py'),
+ 'C10': dict(level='exploration', ref='3/C10', tech='contract-based deductive verification (pyvc + z3) of the wrapper Parser.__call__ against an ASSUMED contract of lark.Lark.parse (exception translation, class, position, string); which strings each grammar accepts: run-time contract + comparison with an independent parser of the documented grammar (bounded)',
+   text='Deductive part: Parser.__call__ returns the transformer value or raises the package UnexpectedToken/UnexpectedCharacters (never lark\'s class, never another exception) carrying the same string and a position within [0, len(string)], given the assumed contract of Lark.parse. ' + B + 'valid strings cross-fed to all four parsers, token-level mutations, random token sequences, junk characters.', note='lark trusted (assumed contract); documented grammar = fixed transcription vf/spec/docgrammar.py'),
  'C11': dict(level='exploration', ref='3/C11', tech='run-time contracts of __eq__/__hash__/clone over all pairs of a formula pool per logic',
    text=B + 'all ordered pairs of a pool per logic (== iff same tree, symmetry, hash, dict/set key), transitivity on triples, Bool vs bool, clone freshness.', note='bounded pools'),
  'C12': dict(level='exploration', ref='3/C12', tech='run-time contract of compute_SCCs (partition + mutual reachability) over all digraphs <=4 nodes; body not within deductive reach',
@@ -41,16 +41,16 @@ P = {
    text='Every obligation of the 12 DiGraph functions under contract (constructor, add_node/add_edge, accessors, clone, get_subgraph, get_reversed_graph, get_reachable_set_from: functional postconditions over the whole view (V,E), raises-iff, frames, freshness, least-fixpoint characterisation of reachability) is generated from the current source and discharged for all graphs and all iteration orders; plus the bounded stand-in (all digraphs <=3/4 nodes). If an obligation is not discharged the run is not reported as proof.' + B[:0], note='Python semantics assumed by the VC encoding (E1-E6, DESIGN.md 2.2); z3 and the pyvc generator are trusted (vacuity probes, planted defects, bounded stand-in as cross-check); termination not proved.'),
  'C14': dict(level='proof', ref='3/C14', tech='contract-based deductive verification: pyvc + z3 on kripke.py (constructor incl. raises-iff-not-total, labels/next/states/transitions, clone, get_substructure) over the graph.py contracts; bounded run-time contracts as cross-check',
    text='Every obligation of the 8 Kripke functions under contract is generated from the current source and discharged for all argument combinations (optional S/S0/R/L, L possibly not a dict, non-iterable label values) and all subsets; callee contracts of graph.py are re-verified in the same run. Bounded stand-in: relations on <=3 states x argument shapes x all subsets.' + B[:0], note='Python semantics assumed by the VC encoding (E1-E6, DESIGN.md 2.2); z3 and the pyvc generator are trusted (vacuity probes, planted defects, bounded stand-in as cross-check); termination not proved. compute_SCCs is not involved.'),
- 'C15': dict(level='exploration', ref='3/C15', tech='run-time contracts of get_fair_states and fair modelcheck against CGP fair semantics (Emerson-Lei reference); known findings attributed through defect models',
-   text=B + 'get_fair_states on every relation <=3 states x every F of <=2 subsets; fair modelcheck on small structures; three recorded findings (KF-C15-1..3) are recognised only when the output equals what the defect model predicts.', note='reference semantics trusted; fairness is largely known-defective on the pinned tree'),
+ 'C15': dict(level='exploration', ref='3/C15', tech='frame and safety obligations (pyvc + z3) of is_a_fair_SCC, get_fair_states, label_fair_states and CTL.modelcheck with F ("no call raises an internal error or modifies K"); what is computed: run-time contracts against CGP fair semantics (Emerson-Lei reference), known findings attributed through defect models (bounded)',
+   text='Deductive part: ~240 obligations: nothing older than the call is written except the contents of label sets of the structure label_fair_states is applied to (the clone inside modelcheck); the results are new sets of states; compute_SCCs assumed. Bounded stand-in (decides): get_fair_states on every relation <=3 states x every F of <=2 subsets; fair modelcheck on small structures; three recorded findings (KF-C15-1..3) are recognised only when the output equals what the defect model predicts.', note='reference semantics trusted; fairness is largely known-defective on the pinned tree'),
  'C16': dict(level='exploration', ref='3/C16', tech='contract-based deductive verification (pyvc + z3) of the hash-consing table: find_isomorph (incl. the late-bound lambda), BDDNode.__reset__, BDDNonTerminalNode.__reset__/__new__ preserve the table invariant (parent sets consistent, reduced, no two registered non-terminals with the same (var,low,high)); GC histories and canonicity: representation-invariant scan after every step of random build/combine/drop/gc histories (bounded)',
    text='Deductive part: 96 obligations discharged for all creation histories without garbage collection (the invariant ranges over every node ever registered). GC interleavings, terminal nodes and "equal function iff same root" (Bryant canonicity, TB8) are decided by the bounded stand-in: seeded histories over pools of OBDDs with a scan of BDDNode.nodes() after every step.', note='WeakSet/GC semantics trusted (TB7)'),
  'C17': dict(level='exploration', ref='3/C17', tech='denotational run-time contracts of apply/invert/restrict/variables + shape walk (ordered, reduced)',
    text=B + 'expression pairs over <=4 variables, all orderings, all (v,b), truth tables on all assignments.', note='bounded'),
  'C18': dict(level='exploration', ref='3/C18', tech='run-time contracts of the OBDD parser functions and printers (lambda vs expression, synonyms, print round trip, error classes)',
    text=B + 'expressions to depth 4 over <=4 variables x argument orders; non-Boolean syntax list.', note='ast.parse trusted'),
- 'C19': dict(level='exploration', ref='3/C19', tech='safety obligations (pyvc + z3: no KeyError/IndexError/StopIteration/AttributeError, callee preconditions) on the CTL labelling functions; run-time contract (fresh caller-owned set of states of K, heterogeneous states/labels) decides the rest (bounded)',
-   text=B + 'structures with str/tuple/mixed/None/float/frozenset states, non-string and operator-like labels, absent atoms; mutate result and call again.', note='RecursionError not claimed (resource bound)'),
+ 'C19': dict(level='exploration', ref='3/C19', tech='safety obligations (pyvc + z3: no KeyError/IndexError/StopIteration/AttributeError/RuntimeError can leave the function, callee preconditions hold) and "the result is a new set of states of the caller\'s structure" on the CTL labelling functions, CTL.modelcheck (with and without F), the LTL.modelcheck wrapper and the CTL* reduction; run-time contract (fresh caller-owned set of states of K, heterogeneous states/labels) decides the rest (bounded)',
+   text='Deductive part: ~550 safety obligations discharged for all structures and object formulas satisfying the arity invariant, with Python None not a state (KF-C19-1). Bounded stand-in: structures with str/tuple/mixed/None/float/frozenset states, non-string and operator-like labels, absent atoms; mutate result and call again.', note='RecursionError not claimed (resource bound)'),
 }
 
 NOT_YET = 'check not built yet in this session (work in progress; see DESIGN.md section 8 build order)'
@@ -102,7 +102,7 @@ def main():
 
 
 NA = {}
-PYVC = {'C01', 'C02', 'C03', 'C05', 'C07', 'C10', 'C13', 'C14', 'C16', 'C19'}
+PYVC = {'C01', 'C02', 'C03', 'C05', 'C07', 'C10', 'C13', 'C14', 'C15', 'C16', 'C19'}
 
 if __name__ == '__main__':
     main()
